@@ -181,7 +181,10 @@ def run(case):
             return violated("%s modified its operand" % desc, tags)
         return held(tags, nontrivial)
     elif kind == "concat":
-        parts = [v] + [np.array(p).astype(dt) for p in case["more"]]
+        mdt = case.get("moredt") or [case["dtype"]] * len(case["more"])       # the operands may differ in element type (numpy promotes all of them together)
+        parts = [v] + [np.array(p).astype(d_) for p, d_ in zip(case["more"], mdt)]
+        if len(set([str(dt)] + [str(np.dtype(d_)) for d_ in mdt])) > 1:
+            tags.append("concat:mixed-dtypes")
         encs = [r] + [RLA.from_array(p.copy()) for p in parts[1:]]
         o = attempt(lambda: np.concatenate([np.asarray(e.to_array()) for e in encs]))
         a = attempt(lambda: np.concatenate(encs))
@@ -347,6 +350,10 @@ def gen_case(rng, tier, kind=None, dtype=None, align=None, uf=None):
             c["vclass"] = "extreme"
     elif kind == "concat":
         c["more"] = [rl.gen_runs(rng, dtype, "small", 6)[0].tolist() for _ in range(rng.randint(0, 3))]
+        if rng.random() < 0.4 and c["more"]:
+            # operands of several element types, in any order (three or more of them: the promotion of all is not the promotion pair by pair)
+            c["moredt"] = [rng.choice(rl.DT_RL) for _ in c["more"]]
+            c["more"] = [rl.gen_runs(rng, d_, "small", 6)[0].tolist() for d_ in c["moredt"]]
     elif kind == "hist":
         if k == "b":
             c["dtype"] = "int64"
@@ -456,6 +463,28 @@ def _with_swap(rng, c):
     if isinstance(c, dict) and "dtype" in c and np.dtype(c["dtype"]).kind in "iu" and rng.random() < 0.12:
         c["swap"] = True
     return c
+
+
+def const_case(rng, tier, s, form):
+    """a number taken from the library source (+-1) as the number of runs of ONE operand of a binary ufunc (the other has few, or as many), with boundaries that
+    partly coincide; otherwise through the forced first size of the case generator"""
+    if form in ("rows", "nonempty") and 8 <= s <= 300000:
+        gen.FORCED["used"] += 1
+        rs = np.random.RandomState(rng.randrange(2 ** 32))
+        dtype, dtype2 = rng.choice(["int64", "float64", "int16", "uint8", "bool"]), rng.choice(["int64", "float64", "int8", "bool"])
+        L = s * rng.choice([1, 2, 3]) + rng.randint(1, 5)
+        many = np.sort(rs.choice(np.arange(1, L), size=s - 1, replace=False)) if L - 1 >= s - 1 else np.arange(1, L)
+        few_n = rng.choice([1, 2, 5, max(2, s // 12), max(2, s // 13), s // 2])
+        few = np.sort(np.unique(np.r_[rs.choice(many, size=min(len(many), max(1, few_n // 2)), replace=False), rs.randint(1, L, size=max(1, few_n // 2))]))      # some boundaries coincide
+        out = []
+        for A, B in ((few, many), (many, few)):
+            va = from_runs([0] + A.tolist(), run_values(rng, dtype, len(A) + 1, "small"), L, dtype)
+            vb = from_runs([0] + B.tolist(), run_values(rng, dtype2, len(B) + 1, "small"), L, dtype2)
+            out.append({"kind": "rl", "dtype": dtype, "vals": va.tolist(), "dtype2": dtype2, "vals2": vb.tolist(), "uf": rng.choice(["multiply", "subtract", "add", "maximum", "less", "bitwise_xor" if (dtype != "float64" and dtype2 != "float64") else "minimum"]),
+                        "align": "asymmetric", "vclass": "small"})
+        return out
+    c = random_case(rng, tier)
+    return c if gen.FORCED["used"] else None
 
 
 def random_case(rng, tier):
